@@ -10,7 +10,7 @@ def obs_trace(cfg):
     n, b, cols = cfg["n"], cfg["b"], cfg["cols"]
     code = lambda off: (jnp.arange(n, dtype=float)[:, None] * 10.0 + off) + jnp.arange(cols, dtype=float)[None, :] * 1000.0
     P = code(1.0) if cols > 1 else (code(1.0)[:, 0] if cfg["flat"] else code(1.0))
-    V = code(2.0)
+    V = code(2.0)[:, 0] if (cols == 1 and cfg.get("flatv")) else code(2.0)        # observed values may be given as a 1-D table too
     E = {"nu": jnp.arange(n, dtype=float) * 10.0 + 3.0 if cfg["flat"] else (jnp.arange(n, dtype=float) * 10.0 + 3.0)[:, None],
          "mu": jnp.arange(n, dtype=float) * 10.0 + 5.0 if cfg.get("flat2", cfg["flat"]) else (jnp.arange(n, dtype=float) * 10.0 + 5.0)[:, None]}        # a second observed parameter
     g = jinns.data.DataGeneratorObservations(jax.random.PRNGKey(cfg["seed"]), b, P, V, E)
@@ -68,7 +68,8 @@ def param_observe(cfg):
         ud["nu"] = {"n1": jnp.asarray(table)[:, None], "n": jnp.asarray(table), "bad_len": jnp.asarray(np.append(table, 1.0)), "bad_cols": jnp.stack([jnp.asarray(table)] * 2, axis=1)}[shape]
     pr = {"nu": (0.0, 1.0)} if cfg["has_range"] else {}
     try:
-        g = jinns.data.DataGeneratorParameter(jax.random.PRNGKey(cfg["seed"]), n, cfg["b"], pr, cfg["method"], ud)
+        none_if_empty = lambda d: (None if (not d and cfg["seed"] % 2) else d)        # an absent table / range dictionary may be given as None
+        g = jinns.data.DataGeneratorParameter(jax.random.PRNGKey(cfg["seed"]), n, cfg["b"], none_if_empty(pr), cfg["method"], none_if_empty(ud))
     except ValueError:
         return "PErr", None
     st = np.asarray(g.param_n_samples["nu"])
@@ -168,6 +169,7 @@ def generate(tier, seed, casedir, variant):
     for _ in range(nobs):
         n = rng.randint(1, 8); b = rng.randint(1, n)
         cfg = dict(what="obs", n=n, b=b, cols=rng.choice([1, 1, 2]), flat=rng.random() < 0.4, flat2=rng.random() < 0.5, calls=2 * (-(-n // b)) + 1, seed=rng.randrange(1 << 30))
+        cfg["flatv"] = rng.random() < 0.4
         if cfg["cols"] > 1:
             cfg["flat"] = False
         batches, stores = obs_trace(cfg)
